@@ -239,6 +239,7 @@ fn build(g: &Grammar, thorough: bool, deep: bool) -> Vec<C2Case> {
     plain.extend(corpus::opt_docs(g, 2));
     plain.extend(corpus::enum_docs(g));
     plain.extend(corpus::same_name_docs(g));
+    plain.extend(corpus::seq_len_docs(g));
     plain.extend(corpus::rich_docs(g));
     if thorough {
         plain.extend(corpus::opt_pair_docs(g, None));
